@@ -1,7 +1,7 @@
 """Shared plumbing for the orchestrator and the generators. NO oracle lives here: this module only
 converts representations (decimal strings -> exact numbers as limb arrays for TLC, identifiers -> the
 names documented for the generated items so that the harness can *mention* them)."""
-import json, re
+import json, os, re
 from fractions import Fraction
 
 BASE = 10000
@@ -104,6 +104,44 @@ def normalise(d):
     return d
 
 
+def apply_source_order(d, repo):
+    """The order of the unit attributes is part of the DECLARATION (it breaks ties between equal scales), and the
+    declaration is the repository's source text: for predefined quantities take the attribute order from there
+    (catalogue.json records symbols, prefixes and published definitions, not the layout of the source file)."""
+    import re
+    for t in d['types']:
+        crate = t.get('crate')
+        if crate == 'quantities':
+            f = os.path.join(repo, 'src', t['path'].split('::')[-1] + '.rs')
+        elif crate == 'astro':
+            f = os.path.join(repo, 'astronimical_quantities', 'src', 'lib.rs')
+        else:
+            continue
+        try:
+            src = open(f, encoding='utf-8').read()
+        except OSError:
+            continue
+        name = t.get('rust', t['T'].split('.')[-1])
+        m = re.search(r'\bstruct\s+%s\b' % re.escape(name), src)
+        if not m:
+            continue
+        q = src.rfind('#[quantity', 0, m.start())
+        if q < 0:
+            continue
+        block = src[q:m.start()]
+        pos = {}
+        for k, mm in enumerate(re.finditer(r'#\[\s*(?:ref_unit|unit)\s*\(\s*(\w+)', block)):
+            pos.setdefault(mm.group(1), k)
+        isref = lambda u: bool((u.get('def') or {}).get('ref'))
+        U = t['units']
+        refs = [u for u in U if isref(u)]
+        others = [u for u in U if not isref(u)]
+        others = sorted(others, key=lambda u: (0, pos[u['w']]) if u['w'] in pos else (1, others.index(u)))
+        t['units'] = refs + others
+        t['attr_order'] = list(range(len(t['units'])))
+    return d
+
+
 def load_declared(path):
     d = json.load(open(path, encoding='utf-8'))
     return normalise(d)
@@ -188,6 +226,21 @@ def tlc_declared(d):
             while q % p_ == 0:
                 q //= p_
         return q == 1
+    def frac_to_x(fr):
+        """terminating fraction -> exact number m*10^q (purely representational)"""
+        n, q, e = fr.numerator, fr.denominator, 0
+        while q != 1:
+            n, e = n * 10, e - 1
+            g = __import__('math').gcd(n, q)
+            n, q = n // g, q // g
+            if e < -400:
+                return {"k": "none"}
+        neg = n < 0
+        n = abs(n)
+        while n and n % 10 == 0:
+            n //= 10
+            e += 1
+        return xnum(neg, n, 0, e if n else 0)
     types = {}
     order = []
     for t in d['types']:
@@ -214,7 +267,9 @@ def tlc_declared(d):
                           "name": name_of(u['w']), "name_cp": cps(name_of(u['w'])),
                           "sym": u['sym'], "sym_cp": cps(u['sym']),
                           "pfx": u['pfx'] if u['pfx'] else "-", "def": dd,
-                          "lit": dec_to_x(u['lit']) if u.get('lit') else {"k": "none"}})
+                          "lit": dec_to_x(u['lit']) if u.get('lit') else {"k": "none"},
+                          # the published scale as a number, when it is a terminating decimal
+                          "pscale": frac_to_x(resolve(t['T'], variant_of(u['w']))) if term else {"k": "none"}})
         dv = t.get('derive')
         types[t['T']] = {"T": t['T'], "kind": ("single" if len(t['units']) == 1 else "noref") if (t.get('noref') or all(not (u.get('def') or {}).get('ref') for u in t['units'])) else "ref",
                          "derive": {"op": dv['op'], "l": dv['l'], "r": dv['r']} if dv else {"op": "-", "l": "-", "r": "-"},
